@@ -945,3 +945,76 @@ func (c *Ctx) ConstValueOrInit(pkgRel, name, want string) {
 	}
 	c.InitStore(pkgRel, name, want, "declared bound has the documented value")
 }
+
+// PairedArgN (rule M): every value-typed result component of the call to `first` that is used is passed on to
+// `second`, and the coin/share arguments of `second` are results of `first` or arguments given to `first`.
+func (c *Ctx) PairedArgN(fnSpec, first, second, desc string) {
+	role := "pairedres/" + first + "/" + second
+	f := c.Fn(fnSpec)
+	if f == nil {
+		return
+	}
+	fs, ss := c.sites(f, first), c.sites(f, second)
+	if len(fs) == 0 || len(ss) == 0 {
+		c.add("M", fnSpec, role, desc, report.Violated, fmt.Sprintf("calls found: %s=%d %s=%d", first, len(fs), second, len(ss)), c.fnPos(f))
+		return
+	}
+	ft := f.Term(fs[0].Value()).String()
+	fargs := map[string]bool{}
+	for _, a := range f.CallArgs(fs[0]) {
+		fargs[a.String()] = true
+	}
+	for _, s := range ss {
+		args := f.CallArgs(s)
+		// the last two arguments of the state-change helpers are (numShares, coins)
+		for _, a := range args[len(args)-2:] {
+			str := a.String()
+			isResult := str == ft
+			for k := 0; k < 4 && !isResult; k++ {
+				if str == fmt.Sprintf("%s#%d", ft, k) {
+					isResult = true
+				}
+			}
+			// a single coin wrapped into a coin set is the same value
+			if (a.Op == "op" && a.Name == "list" || a.Op == "call" && a.Name == "sdk.NewCoins") && len(a.Args) == 1 && fargs[a.Args[0].String()] {
+				isResult = true
+			}
+			if !isResult && !fargs[str] {
+				c.add("M", fnSpec, role, desc, report.Violated, fmt.Sprintf("argument %s of %s is neither a result of %s nor an argument given to it", short(str), second, first), c.posOf(s))
+				return
+			}
+		}
+	}
+	c.add("M", fnSpec, role, desc, report.OK, fmt.Sprintf("%d site(s)", len(ss)), c.posOf(ss[0]))
+}
+
+// SameSubterm: in fn, result 1 (the fee) contains result 0's amount term (the fee is the difference to the very
+// value that is returned as the after-fee amount).
+func (c *Ctx) SameSubterm(fnSpec, desc string) {
+	f := c.Fn(fnSpec)
+	if f == nil {
+		return
+	}
+	for _, b := range f.Fn.Blocks {
+		ret, ok := b.Instrs[len(b.Instrs)-1].(*ssa.Return)
+		if !ok || len(ret.Results) < 2 {
+			continue
+		}
+		t0, t1 := f.Term(ret.Results[0]), f.Term(ret.Results[1])
+		// amount of result 0
+		amt := ""
+		t0.Walk(func(s *ir.Term) bool {
+			if s.Op == "call" && s.Name == "with:Amount" && len(s.Args) == 2 && amt == "" {
+				amt = s.Args[1].String()
+			}
+			return amt == ""
+		})
+		if amt == "" || !strings.Contains(t1.String(), amt) {
+			c.add("A", fnSpec, "samesubterm", desc, report.Violated, "the fee term does not contain the returned after-fee amount", c.posOf(ret))
+			return
+		}
+		c.add("A", fnSpec, "samesubterm", desc, report.OK, short(amt), c.posOf(ret))
+		return
+	}
+	c.add("A", fnSpec, "samesubterm", desc, report.Violated, "no return with two results", c.fnPos(f))
+}
